@@ -80,7 +80,7 @@ def runLine (ds : DS) (line : String) : DS × Option String :=
       let vs := (parseItems ty hex).take items
       let ret (cnt : Nat) : String := s!"ret={if unit == "f" then cnt / ch else cnt} err=0"
       match ds.codec with
-      | .paf24 _ _ => ({ ds with calls := (Paf24.chunkOf ty, vs.map (Paf24.ofCaller ds.conv ty)) :: ds.calls }, some (ret items))
+      | .paf24 _ _ => ({ ds with calls := (Paf24.chunkOf ch ty, vs.map (Paf24.ofCaller ds.conv ty)) :: ds.calls }, some (ret items))
       | .sds bw _ => ({ ds with calls := (Sds.chunkOf ty, vs.map (Sds.ofCaller bw ds.conv ty)) :: ds.calls }, some (ret items))
       | .dpcm wide =>
         let (l, bs) := Dpcm.write wide ds.conv ty ds.last16 vs
@@ -121,7 +121,7 @@ def runLine (ds : DS) (line : String) : DS × Option String :=
         let (chunk, toC) : Nat × (Int → Int) :=
           match ds.codec with
           | .sds _ _ => (Sds.chunkOf ty, Sds.toCaller (h.r.spb |> fun spb => if spb == 60 then 8 else if spb == 40 then 16 else 24) ds.conv ty)
-          | _ => (Paf24.chunkOf ty, Paf24.toCaller ds.conv ty)
+          | _ => (Paf24.chunkOf ch ty, Paf24.toCaller ds.conv ty)
         let (h', d, cnt) := h.read chunk items
         ({ ds with rs := .blk h' }, some (shw cnt (showItems ty (d.map toC) ++ fillA5 ty (items - d.length))))
       | .dpcm h =>
